@@ -17,7 +17,7 @@ use vh::wire::{self, Fti};
 #[global_allocator]
 static GLOBAL: alloc::Counting = alloc::Counting;
 
-const CLASSES: [&str; 9] = ["tiny", "short", "subst", "field_fti", "field_fti_any", "field_misc", "fdtxml", "fdt_oti", "sequence"];
+const CLASSES: [&str; 10] = ["tiny", "short", "subst", "field_fti", "field_fti_any", "field_misc", "fdtxml", "fdt_oti", "fdt_id_reuse", "sequence"];
 
 struct World {
     seed: u64,
@@ -38,6 +38,7 @@ fn class_size(w: &World, class: &str) -> u64 {
         "field_misc" => w.corpus.len() as u64 * MISC_EDITS,
         "fdtxml" => w.corpus.len() as u64 * if w.thorough { 1200 } else { 40 },
         "fdt_oti" => if w.thorough { 120_000 } else { 2400 },
+        "fdt_id_reuse" => if w.thorough { 6000 } else { 320 },
         "sequence" => if w.thorough { 1_500_000 } else { 6000 },
         _ => 0,
     }
@@ -512,6 +513,30 @@ fn gen_seq(w: &World, class: &str, k: u64) -> Option<(Value, u64, Vec<Vec<u8>>)>
             }
             Some((json!({"class": "fdt_oti", "fec": fec, "attrs": attrs, "at_file_level": at_file, "L": l}), tsi, seq))
         }
+        // an FDT instance that fails to decode (complete but malformed), then cleanup() as applications call it, then a
+        // valid session on the same TSI that reuses the instance id: "a rejected packet leaves the receiver usable"
+        "fdt_id_reuse" => {
+            let tsi = 88u64;
+            let id = 1 + (k % 7) as u32 * 1000;
+            let bad: Vec<u8> = match k % 8 {
+                0 => b"<?xml version=\"1.0\"?><FDT-Instance Expires=\"".to_vec(),
+                1 => rng.bytes(300),
+                2 => format!("<?xml version=\"1.0\"?><NotAnFdt Expires=\"{}\"/>", expires_in(3600)).into_bytes(),
+                3 => format!("<?xml version=\"1.0\"?><FDT-Instance xmlns=\"urn:IETF:metadata:2005:FLUTE:FDT\" Expires=\"{}\"><File TOI=\"abc\" Content-Location=\"file:///x\"/></FDT-Instance>", expires_in(3600)).into_bytes(),
+                4 => format!("<?xml version=\"1.0\"?><FDT-Instance xmlns=\"urn:IETF:metadata:2005:FLUTE:FDT\" Expires=\"not a number\"><File TOI=\"5\" Content-Location=\"file:///x\"/></FDT-Instance>").into_bytes(),
+                5 => vec![],
+                6 => b"\xff\xfe<\x00F\x00D\x00T\x00".to_vec(),
+                _ => format!("<?xml version=\"1.0\"?><FDT-Instance xmlns=\"urn:IETF:metadata:2005:FLUTE:FDT\" Expires=\"{}\"><File TOI=\"5\" Content-Location=\"file:///x\" Content-Length=\"1\"></FDT-Instance>", expires_in(3600)).into_bytes(),
+            };
+            // sometimes announced as gzip although it is not
+            let cenc = if (k / 8) % 3 == 0 { Some(3u8) } else { None };
+            let mut seq = vec![MARKER_REUSE_FDT_ID.to_vec()];
+            seq.extend(wrap_fdt(&bad, tsi, id, if (k / 24) % 2 == 0 { 1400 } else { 64 }, cenc, rng.chance(1, 2)));
+            for _ in 0..(1 + (k / 48) % 3) {
+                seq.push(MARKER_CLEANUP.to_vec());
+            }
+            Some((json!({"class": "fdt_id_reuse", "fdt_id": id, "bad_fdt": String::from_utf8_lossy(&bad).chars().take(200).collect::<String>(), "announced_gzip": cenc.is_some()}), tsi, seq))
+        }
         "fdtxml" => {
             let per = if w.thorough { 1200 } else { 40 };
             let c = &w.corpus[(k / per) as usize];
@@ -803,7 +828,7 @@ fn main() {
     let prop = Property {
         id: "C04",
         level: "exploration",
-        rule: "hostile packet sequences in crash-isolated children: (tiny) every byte string of length <= 3; (short) enumerated first-word combinations at lengths 4..40; (subst) every single-byte substitution over the header region of corpus packets (8 representative values quick / all 255 thorough); (field_fti) per-scheme EXT_FTI extremes on object packets, FDT first and object first; (field_fti_any) EXT_FTI extremes of every scheme id incl. FEC 2 with its m/G word, codepoint and payload id rewritten to match, on the FDT packets or on the object packets; (field_misc) payload-id, payload-size, codepoint, flag, HDR_LEN, HEL, EXT_FDT, EXT_TIME, EXT_CENC, FDT-FTI, TOI-class edits through the independent encoder; (fdt_oti) FEC OTI delivered by the FDT only - extremes of every FEC-OTI attribute and of the base64 scheme-specific info for every scheme id, at instance or File level - followed by object packets of that codepoint without EXT_FTI; (fdtxml) FDT XML attribute rewriting / truncation / duplication / nesting / entities / noise wrapped into FDT packets; (sequence) seeded flip/truncate/extend/splice/repeat/drop/swap sequences over whole sessions. Each sequence is followed by two probe sessions. Oracle: every push returns, no panic, no step-budget trip, per-call heap growth <= 48 MiB with a 1 MiB cache, no single request > 256 MiB, probes delivered. A case is one shard of one class; distinct = shards that executed pushes; monitor states = distinct error-message kinds reached",
+        rule: "hostile packet sequences in crash-isolated children: (tiny) every byte string of length <= 3; (short) enumerated first-word combinations at lengths 4..40; (subst) every single-byte substitution over the header region of corpus packets (8 representative values quick / all 255 thorough); (field_fti) per-scheme EXT_FTI extremes on object packets, FDT first and object first; (field_fti_any) EXT_FTI extremes of every scheme id incl. FEC 2 with its m/G word, codepoint and payload id rewritten to match, on the FDT packets or on the object packets; (field_misc) payload-id, payload-size, codepoint, flag, HDR_LEN, HEL, EXT_FDT, EXT_TIME, EXT_CENC, FDT-FTI, TOI-class edits through the independent encoder; (fdt_oti) FEC OTI delivered by the FDT only - extremes of every FEC-OTI attribute and of the base64 scheme-specific info for every scheme id, at instance or File level - followed by object packets of that codepoint without EXT_FTI; (fdt_id_reuse) an FDT instance that is complete but fails to decode, cleanup() calls, then a valid session on the same TSI reusing that instance id; (fdtxml) FDT XML attribute rewriting / truncation / duplication / nesting / entities / noise wrapped into FDT packets; (sequence) seeded flip/truncate/extend/splice/repeat/drop/swap sequences over whole sessions. Each sequence is followed by two probe sessions. Oracle: every push returns, no panic, no step-budget trip, per-call heap growth <= 48 MiB with a 1 MiB cache, no single request > 256 MiB, probes delivered. A case is one shard of one class; distinct = shards that executed pushes; monitor states = distinct error-message kinds reached",
         assumptions: vec![
             "probe sessions use a TOI, FDT instance id and TSI that the hostile sequence did not use".into(),
             "allocation numbers come from the harness's counting allocator in a single-threaded child; the monitoring writer keeps at most 4 KiB per writer".into(),
